@@ -44,8 +44,8 @@ def main() -> int:
     ok = False
     try:
         demo = (src / "demo.py").read_text().replace(f"/tmp/seed4/{pid}", str(wt)).replace(f"/tmp/seed3/{pid}", str(wt)).replace(f"/tmp/seed2/{pid}", str(wt)).replace(f"/tmp/seed/{pid}", str(wt))
-        (wt / "_demo.py").write_text(demo)
-        clean = sh([PY, "_demo.py"], cwd=wt, env=env, timeout=600)
+        (wt / "demo.py").write_text(demo)
+        clean = sh([PY, "demo.py"], cwd=wt, env=env, timeout=600)
         ran.append(f"clean tree: demo exit {clean.returncode}")
         if clean.returncode != 0:
             print(f"{name}: demo does not pass on the clean tree (exit {clean.returncode})\n{clean.stdout[-500:]}{clean.stderr[-500:]}")
@@ -58,7 +58,7 @@ def main() -> int:
         if imp.returncode:
             print(f"{name}: package does not import with the patch: {imp.stderr[-300:]}")
             return 1
-        broken = sh([PY, "_demo.py"], cwd=wt, env=env, timeout=600)
+        broken = sh([PY, "demo.py"], cwd=wt, env=env, timeout=600)
         ran.append(f"patched tree: demo exit {broken.returncode}")
         if broken.returncode == 0:
             print(f"{name}: demo still passes WITH the patch - not a demonstration")
